@@ -178,9 +178,13 @@ def _verbatim(ctx, loader):
     for name, want in (('presence_time', 'presence_node'),
                        ('placement_time', 'appnode')):
         vals = [N.txt(v) for v in defs.get(name, [])]
-        ok = any('metadata.ctime' in v for v in vals)
+        stamps = [K.exact_ms_to_s(v) for v in defs.get(name, [])
+                  if 'ctime' in N.txt(v)]
+        ok = bool(stamps) and all(st == 'metadata.ctime' for st in stamps)
         ctx.ob('C11.2', func, None, ok,
-               '%s is the ctime of the node: %s' % (name, vals),
+               '%s is the creation time of the node in seconds, converted '
+               'without truncation (both sides of the comparison keep the '
+               'millisecond order): %s' % (name, vals),
                construct='%s definition' % name)
     # the other branch
     puts = K.nodes_calling(graph, lambda c: K.is_meth(c, 'put') and
